@@ -6,6 +6,7 @@ import SqiProofs.QuatContains
 import SqiProofs.QuatLatMul
 import SqiProofs.QuatIndex
 import SqiProofs.QuatDual
+import SqiProofs.QuatCanon
 import SqiGen.QuatAlg
 /- C14 — "Quaternion algebra and lattice arithmetic is exact and canonical".
    Property theorems about the hand model `SqiModel.Quat` (tie H: the model's executable definitions are run
@@ -169,7 +170,7 @@ theorem lattice_dual_exact (l : Lattice) (hd : l.denom ≠ 0) (hdet : (toMatrix 
 theorem lattice_intersect_exact (l1 l2 : Lattice) (h1 : l1.denom ≠ 0) (h2 : l2.denom ≠ 0)
     (hd1 : (toMatrix l1.basis).det ≠ 0) (hd2 : (toMatrix l2.basis).det ≠ 0) :
     ratLat (latIntersect l1 l2) = ratLat l1 ⊓ ratLat l2 ∧ (latIntersect l1 l2).denom ≠ 0 ∧
-    IsHNF (latIntersect l1 l2).basis := latIntersect_spec l1 l2 h1 h2 hd1 hd2
+    IsHNF (latIntersect l1 l2).basis ∧ Reduced (latIntersect l1 l2) := latIntersect_spec l1 l2 h1 h2 hd1 hd2
 
 /-- `quat_lattice_index` is the covolume ratio (the index when sub ⊆ over), for triangular bases -/
 theorem lattice_index_exact (sub over : Lattice) (hs : sub.denom ≠ 0) (ho : over.denom ≠ 0)
@@ -178,6 +179,19 @@ theorem lattice_index_exact (sub over : Lattice) (hs : sub.denom ≠ 0) (ho : ov
     (hdvd : (sub.denom * sub.denom * (sub.denom * sub.denom) * (toMatrix over.basis).det) ∣
             (over.denom * over.denom * (over.denom * over.denom) * (toMatrix sub.basis).det)) :
     (latIndex sub over : ℚ) = covol sub / covol over := latIndex_spec sub over hs ho hts hto hdo hdvd
+
+/-- every lattice routine ends with `quat_lattice_reduce_denom`, whose output is reduced (gcd(content, denom) = 1) -/
+theorem lattice_outputs_reduced (p : ℤ) (l1 l2 : Lattice) (h1 : l1.denom ≠ 0) (h2 : l2.denom ≠ 0) :
+    Reduced (latReduceDenom l1) ∧ Reduced (latHnf l1) ∧ Reduced (latAdd l1 l2) ∧ Reduced (latMul p l1 l2) :=
+  ⟨latReduceDenom_reduced l1 h1, latReduceDenom_reduced _ h1, latReduceDenom_reduced _ (mul_ne_zero h1 h2),
+   latReduceDenom_reduced _ (mul_ne_zero h1 h2)⟩
+
+/-- **canonical representation**: a rational lattice has exactly one representation with an HNF basis and a reduced
+    denominator, up to the sign of the denominator (which the C code does not normalise) -/
+theorem lattice_canonical (l1 l2 : Lattice) (h1 : l1.denom ≠ 0) (h2 : l2.denom ≠ 0)
+    (hn1 : IsHNF l1.basis) (hn2 : IsHNF l2.basis) (r1 : Reduced l1) (r2 : Reduced l2)
+    (h : ratLat l1 = ratLat l2) : l1.basis = l2.basis ∧ l1.denom.natAbs = l2.denom.natAbs :=
+  lattice_repr_unique l1 l2 h1 h2 hn1 hn2 r1 r2 h
 
 /-! ## non-vacuity: the hypotheses are met by concrete non-trivial instances -/
 
@@ -202,6 +216,8 @@ example : FullRank (spanL O0.basis.cols) := by
   · intro x hx; exact hx
 
 example : (⟨-3, ⟨1, -2, 5, 7⟩⟩ : Elem).denom ≠ 0 := by decide
+
+example : Reduced O0 := by unfold Reduced; decide
 
 /-- a rank-deficient input really produces a zero diagonal entry (so the hypothesis of `hnf_is_hnf` matters) -/
 example : (hnfCore [⟨1, 0, 0, 0⟩, ⟨2, 0, 0, 0⟩, ⟨0, 1, 0, 0⟩, ⟨0, 0, 1, 0⟩]).get 0 0 = 0 := by decide
